@@ -1042,7 +1042,10 @@ class Evaluator(object):
             if fi is None and recv[1]:
                 fi = self.prog.resolve(recv[1], name, after=recv[1])
             if fi is None:
-                return ("opaque", "super." + name)
+                rid = next(self._ids)
+                ev = Event("call", recv=SELF, name=name, args=args, kwargs=kwargs, callee=None, result=("res", rid), inlined=False, extra="super-external")
+                self.emit(ev, node, st, frame)
+                return ("res", rid)
             return self.call_function(fi, SELF_OF(frame), frame.host, args, kwargs, st, frame, node, recv=SELF_OF(frame), via_super=True)
         if t == "class":
             fi = self.prog.resolve(recv[1], name)
